@@ -39,7 +39,7 @@ def strings(ctx):
 
 def shape_pool(ctx):
     n = 2000 if ctx.tier == "quick" else 40000
-    pool = vlib.level1() + genlib.special_shapes() + genlib.rand_shapes(ctx.rng, n)
+    pool = vlib.level1() + genlib.special_shapes() + genlib.good_family() + genlib.rand_shapes(ctx.rng, n)
     return [s for s in pool if genlib.printable_shape(s)]
 
 def run(ctx):
@@ -75,9 +75,19 @@ def run(ctx):
                 break
     coll = [(genlib.text_of(n), v) for n, v in names.items() if len(v) > 1]
     ctx.notes["name_collisions_found"] = len(coll)
-    for n, v in coll[:1]:
-        ctx.fail("different shapes receive the same generated type name", "gen_name\t" + v[0],
-                 {"name": n, "shapes": v[:4]}, known="KF4")
+    # the known class KF4 is "member NAMES are not hashed (and case is folded)": exactly the collisions the model
+    # of the code as it is has too.  A collision between shapes the model names DIFFERENTLY is new.
+    mname = dict(zip(ts, ctx.model(["gen_name\t" + t for t in ts])))
+    n_known = 0
+    for n, v in coll:
+        fresh = [t for t in v[1:] if mname.get(t) != mname.get(v[0])]
+        if fresh:
+            ctx.fail("different shapes receive the same generated type name (and the model of the code names them differently)",
+                     "gen_name\t" + v[0], {"name": n, "shapes": [v[0][:300], fresh[0][:300]]})
+        elif not n_known:
+            n_known = 1
+            ctx.fail("different shapes receive the same generated type name", "gen_name\t" + v[0],
+                     {"name": n, "shapes": v[:4]}, known="KF4")
     # ---------------------------------------------------------------- compile_json
     sets = list(genlib.SOURCE_SETS) + genlib.doc_sources(ctx.rng, 60 if ctx.tier == "quick" else 1500)
     inf, raw = genlib.infer051(ctx, sets)
@@ -105,6 +115,11 @@ def run(ctx):
         cases.append((ss, 'big', 'out', [("T", t) for t in ss], r))
     ctx.notes["odd_out_dir_cases"] = 2 * 4
     ctx.notes["big_source_cases"] = [sum(len(t) for t in ss) for ss in big_sets]
+    # sources that share one base name in different directories (and one path listed twice)
+    for ss, r in list(zip(sets, raw))[:8]:
+        if len(ss) >= 2:
+            cases.append((ss, 'same', 'out', [("S", t) for t in ss], r))
+    ctx.notes["same_base_name_cases"] = sum(1 for c in cases if c[3] and c[3][0][0] == "S")
     for name, d in (('collection', 'out'), ('a.b', '-')):
         cases.append((None, name, d, [("M", None)], "ERR"))
         cases.append((None, name, d, [("D", None)], "ERR"))
@@ -114,7 +129,7 @@ def run(ctx):
             cases.append((bad, name, d, [("T", t) for t in bad], r))
     ilines, mlines = [], []
     for ss, name, d, specs, infres in cases:
-        sp = "\t".join(k + (hexs(t) if k == "T" else "") for k, t in specs)
+        sp = "\t".join(k + (hexs(t) if k in "TS" else "") for k, t in specs)
         ilines.append("compile\t%s\t%s%s" % (hexs(name), '-' if d == '-' else hexs(d), ("\t" + sp) if sp else ""))
         if infres.startswith("OK "):
             ia = "S" + infres[3:]
@@ -122,7 +137,8 @@ def run(ctx):
             ia = "P"
         else:
             ia = "E"
-        srcs = "\t".join("%s:%s" % (hexs("$R/src/s%d.json" % j), "R" if k == "T" else "X") for j, (k, _) in enumerate(specs))
+        srcs = "\t".join("%s:%s" % (hexs("$R/src/d%d/sample.json" % j if k == "S" else "$R/src/s%d.json" % j), "R" if k in "TS" else "X")
+                         for j, (k, _) in enumerate(specs))
         mlines.append("gen_compile\t%s\t%s\t%s\t%s\t1%s" % (hexs(name), '-' if d == '-' else hexs("$R/" + d),
                                                            hexs("$R/cwd"), ia, ("\t" + srcs) if srcs else ""))
     ri = ctx.impl(ilines)
